@@ -245,6 +245,9 @@ func (p *Parser) next() {
 		return
 	}
 	p.spaced = false
+	// Only advanceLitNone computes the offset of '=' in the new token's value;
+	// never let a token lexed in another state inherit the previous one.
+	p.eqlOffs = -1
 	if p.quote&allKeepSpaces != 0 {
 		p.nextKeepSpaces()
 		return
